@@ -199,6 +199,11 @@ func runSndInBubble(t *testing.T, sc *SndScenario, ch sim.Chooser) []sim.Ev {
 	startCall := func(i int) {
 		c := sc.Calls[i]
 		ctx, cancel := context.WithCancel(context.Background())
+		if i%2 == 1 {
+			// every other caller also brings a deadline of its own, far beyond the sender's read timeout: the read
+			// timeout applies all the same
+			ctx, cancel = context.WithTimeout(context.Background(), time.Hour)
+		}
 		calls[i].started, calls[i].cancel = true, cancel
 		mu.Lock()
 		seq++
